@@ -17,6 +17,8 @@ type c18 struct{}
 
 func init() { engine.Register(c18{}) }
 
+func (c18) PostGenerate(r *engine.Rand, sc *engine.Scenario) { chooseEnv(r, sc) }
+
 func (c18) ID() string { return "C18" }
 
 func (c18) Budget(tier string) int {
@@ -67,7 +69,7 @@ func (c18) Execute(sc *engine.Scenario) *engine.Result {
 		return res
 	}
 	m.Write(0xff40, 0)
-	m.Park()
+	park(sc, m, res)
 	ref := dmgref.NewAPU()
 	write := func(a uint16, v uint8) {
 		m.Write(a, v)
